@@ -173,18 +173,47 @@ func c02Processes(c *caseCtx) {
 	c.sample(M{"corpus": N, "processes": P, "accepted": acc, "example": corpus[0].M})
 }
 
+// large problems: implementations may switch strategy (batching, worker goroutines) above a size threshold
+func c02Large(c *caseCtx) {
+	method := []string{"weightedSum", "owa", "majorityHeuristic", "satisfactionHeuristic", "aspectEliminationHeuristic", "electreIII"}[c.idx%6]
+	na := 256 + c.rng.Intn(500)
+	if method == "electreIII" {
+		na = 130 + c.rng.Intn(60)
+	}
+	g := genRequest(c.rng, genOpts{method: method, minAlt: na, maxAlt: na, minCrit: 2, maxCrit: 4, nBiases: 1 + c.rng.Intn(3), allFire: true, profile: profReals})
+	body := g.body()
+	first := decide(body, false)
+	c.count("evaluations", 1)
+	for rep := 1; rep < 3; rep++ {
+		d := decide(body, false)
+		c.count("evaluations", 1)
+		if d.OK != first.OK || (d.OK && !bytes.Equal(d.JSON, first.JSON)) {
+			c.violate("bytes-not-repeatable", fmt.Sprintf("repetition %d of a request with %d alternatives gives a different response", rep, na), M{"method": method, "alternatives": na, "biases": g.M["biases"], "seed_case": c.idx})
+			return
+		}
+	}
+	if first.OK {
+		c.count("large_repeated", 1)
+		c.count("nontrivial", 1)
+		c.distinct(fmt.Sprintf("large|%s|%d|%d", method, na, c.idx))
+	}
+}
+
 func init() {
 	register(&propDef{
 		id: "C02",
 		rule: "generated requests over all methods x 0..3 biases incl. every random option (random orderings, random draw policy, random reference strategies, seeded shuffles) " +
 			"and ~10% rejected ones. Stream inProcess: each request R times in one process (pristine and decorated registries alternate; Go re-randomises map iteration per " +
 			"range statement) - identical bytes / identical verdict. Stream processes: a corpus sent to P fresh service processes in different orders (different " +
-			"histories, some requests twice in a row) - identical status, identical bytes for 200, equal to the marshalled library result. Non-trivial = request with >=1 map " +
+			"histories, some requests twice in a row) - identical status, identical bytes for 200, equal to the marshalled library result. Stream large: problems with " +
+			"hundreds of alternatives (size thresholds), 3 repetitions. Non-trivial = request with >=1 map " +
 			"of >=2 keys feeding a computation, observed >=2 times; distinct = distinct request bodies.",
 		assumptions: []string{"wall-clock independence is only exercised by running at different times in different processes (the clock cannot be moved)",
 			"rejected requests are compared on the verdict only (lists of available names are printed in map order)"},
 		streams: []*stream{
 			{name: "inProcess", n: tierN(7000, 150000), unit: 1750, run: c02InProcess, floors: map[string]int64{"accepted_repeated": 5000, "rejected_repeated": 300}},
+			{name: "large", n: tierN(48, 600), unit: 4, run: c02Large, floors: map[string]int64{"large_repeated": 30},
+				note: "requests with 256..755 alternatives (ELECTRE 130..189) and 1..3 fired biases, 3 repetitions each"},
 			{name: "processes", n: tierN(3, 12), unit: 1, run: c02Processes, floors: map[string]int64{"processes_started": 9, "requests_compared_across_processes": 700}},
 		},
 	})
